@@ -233,7 +233,7 @@ def gen_sniff(facts):
 
 CACHE_OPTIONS = {
     'trim_attribute_space': [False, True], 'implicit_i18n_translate': [False, True], 'strict': [True, False],
-    'boolean_attributes': [None, {'title'}], 'implicit_i18n_attributes': [set(), {'title'}], 'enable_data_attributes': [False, True],
+    'boolean_attributes': [None, {'title'}, set(), frozenset()], 'implicit_i18n_attributes': [set(), {'title'}, {'alt'}], 'enable_data_attributes': [False, True],
     'enable_comment_interpolation': [True, False], 'restricted_namespace': [True, False], 'default_expression': ['python', 'string'],
     'encoding': [None, 'utf-8'], 'keep_body': [False, True], 'debug_marker': [0, 1],
     'tokenizer': [None, 'custom'], 'expression_types': [None, 'custom'], 'default_marker': [None, 'custom'],
@@ -289,8 +289,11 @@ def gen_cache(facts):
     flipping each option on probe bodies"""
     from chameleon.zpt.template import PageTemplate
     keyed, infl = [], []
-    for name, (v0, v1) in CACHE_OPTIONS.items():
-        k = i = False
+    import itertools
+    unsound = []
+    for name, values in CACHE_OPTIONS.items():
+      k = i = False
+      for v0, v1 in itertools.combinations(values, 2):
         for body in CACHE_PROBES:
             res = []
             for v in (v0, v1):
@@ -309,20 +312,45 @@ def gen_cache(facts):
                 k = True
             if res[0][1] != res[1][1]:
                 i = True
-        if k:
+                if res[0][0] == res[1][0]:
+                    u = '%s: %r / %r' % (name, v0, v1)
+                    if u not in unsound:
+                        unsound.append(u)
+      if k:
             keyed.append(name)
-        if i:
+      if i:
             infl.append(name)
+    facts['cache_unsound_value_pairs'] = unsound
     facts['cache_keyed'] = keyed
     facts['cache_influencing'] = infl
     return ['/-- constructor options whose flip changes `PageTemplate.digest` (observed) -/',
             'def cacheKeyed : List String := ' + lean_strs(keyed),
             '/-- constructor options whose flip changes the generated module source on the probe bodies (observed) -/',
             'def cacheInfluencing : List String := ' + lean_strs(infl),
-            'def cacheOptionsProbed : List String := ' + lean_strs(list(CACHE_OPTIONS))]
+            'def cacheOptionsProbed : List String := ' + lean_strs(list(CACHE_OPTIONS)),
+            '/-- pairs of option values that give different code under the same key (observed; expected: those of D-15b only) -/',
+            'def cacheUnsoundValuePairs : List String := ' + lean_strs(unsound)]
 
 
-GENERATORS = [('cache', gen_cache), ('sniff', gen_sniff), ('escape', gen_escape), ('names', gen_names), ('wrap', gen_wrap), ('repeat', gen_repeat)]
+def gen_ties(facts):
+    """constant tables the model spells out by hand; `ChamProofs/Ties.lean` proves them equal to these (kernel evaluation)"""
+    from chameleon import i18n, metal, tal
+    from chameleon.zpt.program import MacroProgram
+    dn = MacroProgram.DEFAULT_NAMESPACES
+    facts['whitelists'] = {'tal': sorted(tal.WHITELIST), 'metal': sorted(metal.WHITELIST), 'i18n': sorted(i18n.WHITELIST)}
+    facts['default_namespaces'] = [[k, v] for k, v in dn.items()]
+    return [
+        'def talWhitelistSorted : List String := ' + lean_strs(sorted(tal.WHITELIST)),
+        'def metalWhitelistSorted : List String := ' + lean_strs(sorted(metal.WHITELIST)),
+        'def i18nWhitelistSorted : List String := ' + lean_strs(sorted(i18n.WHITELIST)),
+        '/-- `MacroProgram.DEFAULT_NAMESPACES` in dictionary order -/',
+        'def defaultNamespaces : List (String × String) := [' + ', '.join('(%s, %s)' % (lean_str(k), lean_str(v)) for k, v in dn.items()) + ']',
+        'def restrictedNamespaceDefault : Bool := ' + ('true' if MacroProgram.restricted_namespace else 'false'),
+        'def enableCommentInterpolationDefault : Bool := ' + ('true' if MacroProgram.enable_comment_interpolation else 'false'),
+    ]
+
+
+GENERATORS = [('cache', gen_cache), ('sniff', gen_sniff), ('escape', gen_escape), ('names', gen_names), ('wrap', gen_wrap), ('repeat', gen_repeat), ('ties', gen_ties)]
 
 
 def gen_tables(facts):
